@@ -270,7 +270,7 @@ func (g *gen) execInstr(ins ssa.Instruction, st *State, b *ssa.BasicBlock) {
 		for _, r := range x.Results {
 			rs = append(rs, g.val(r))
 		}
-		g.retStates = append(g.retStates, &retPoint{blk: b, vars: g.varAt, st: &State{reach: st.reach, heap: st.heap, wm: st.wm}, results: rs, pos: x.Pos()})
+		g.retStates = append(g.retStates, &retPoint{nAssume: len(g.assumes), blk: b, vars: g.varAt, st: &State{reach: st.reach, heap: st.heap, wm: st.wm}, results: rs, pos: x.Pos()})
 	case *ssa.Panic:
 		g.oblige(st, "safe:panic", g.lbl(x.Pos(), "call", "panic"), False, "explicit panic reachable")
 	default:
